@@ -120,3 +120,45 @@ def drive_and_validate(ctx, modes, selftest_on=None):
         if ctx.tier == "thorough" and selftest_on == mode:
             ctx.selftest("BgzfWriter", "WriterTrace", "WriterTraceP.cfg", trace, MUTS, max_scen=400)
     ctx.extra["driver"] = total
+
+
+def mut_hook_level(ev):
+    for e in ev:
+        if e.get("ev") == "hook" and e["p"] in ("w.queue", "f.queue") and e["a"] > 0:
+            e["a"] -= 1
+            return ev
+
+
+def mut_hook_drop(ev):
+    n = 0
+    for i, e in enumerate(ev):
+        if e.get("ev") == "hook" and e["p"] == "e.recvq":
+            n += 1
+            if n == 2:
+                del ev[i]
+                return ev
+
+
+def iconformance(ctx):
+    """Hook traces of the real writer (every hook point + API calls/returns) must be behaviours of WriterI:
+    the implementation-shaped specification is bound to the code it describes.  A mismatch is MODEL-DRIFT."""
+    trace = "%s/wr_itrace.ndjson" % ctx.work
+    s = ctx.drive(["wr", "--mode", "itrace", "--out", trace], timeout=7200)
+    ctx.extra["driver_itrace"] = s
+    for nc in (2, 3, 5):
+        ctx.validate("BgzfWriter", "WriterITrace", "WriterITrace_nc%d.cfg" % nc, trace, is_p=False, branching=True)
+    if ctx.tier == "thorough":
+        # the binding itself: a wrong fill level / a dropped emitter event must not be explainable
+        for name, mut in (("hook-fill-level", mut_hook_level), ("hook-dropped", mut_hook_drop)):
+            ev = vrun.read_ndjson(trace)[:1500]
+            m = mut(json.loads(json.dumps(ev)))
+            if m is None:
+                continue
+            p = "%s/it_%s.ndjson" % (ctx.work, name)
+            with open(p, "w") as f:
+                for e in m:
+                    f.write(json.dumps(e) + "\n")
+            rej = sum(len(vrun.validate_trace("BgzfWriter", "WriterITrace", "WriterITrace_nc%d.cfg" % nc, p, branching=True).rejected) for nc in (2, 3, 5))
+            if rej == 0:
+                raise vrun.Infra("WriterITrace accepted a mutated hook trace (%s)" % name)
+            ctx.extra.setdefault("binding_selftest", []).append(dict(mutation="WriterITrace/" + name, applied=True, rejected=True))
